@@ -100,7 +100,7 @@ func runNative(P *Program, cases []Case) (map[string]NativeResult, string, error
 	var logs strings.Builder
 	runPkg := func(pkgDir string, cs []Case) error {
 		remaining := cs
-		for round := 0; len(remaining) > 0 && round < 20; round++ {
+		for round := 0; len(remaining) > 0 && round < 60; round++ {
 			cj, _ := json.Marshal(remaining)
 			cpath := filepath.Join(tmp, "cases.json")
 			rpath := filepath.Join(tmp, "results.jsonl")
@@ -130,7 +130,16 @@ func runNative(P *Program, cases []Case) (map[string]NativeResult, string, error
 			}
 			f.Close()
 			if seen == 0 {
-				return fmt.Errorf("native replay made no progress: %s", string(out))
+				// the test binary died on the first remaining case (fatal error such as
+				// a stack overflow cannot be recovered): record it and go on
+				if len(remaining) == 0 {
+					break
+				}
+				tail := string(out)
+				if len(tail) > 400 {
+					tail = tail[:400]
+				}
+				res[remaining[0].ID] = NativeResult{ID: remaining[0].ID, Outcome: "panic", Detail: "native process died: " + tail}
 			}
 			var rest []Case
 			for _, c := range remaining {
